@@ -7,6 +7,7 @@ import (
 	"errors"
 
 	"github.com/pion/interceptor"
+	"github.com/pion/interceptor/pkg/intervalpli"
 	"github.com/pion/interceptor/pkg/jitterbuffer"
 	"github.com/pion/interceptor/pkg/nack"
 	"github.com/pion/interceptor/pkg/packetdump"
@@ -67,6 +68,8 @@ func member(k int) interceptor.Interceptor {
 		f, err = rfc8888.NewSenderInterceptor()
 	case 8:
 		f, err = packetdump.NewReceiverInterceptor()
+	case 10:
+		f, err = intervalpli.NewReceiverInterceptor()
 	default:
 		f, err = jitterbuffer.NewInterceptor()
 	}
